@@ -79,7 +79,7 @@ def opunit(name, op, clause, mutants, unwind=3, recurses=True, tail_not="RULE_LE
     if tail_not:
         defines.append("-DPEG_TAIL_NOT_OP=" + tail_not)
     defines += list(extra_defines)
-    u = {"id": "peg.rule." + name, "props": ["C12"], "tier": tier, "class": "bounded",
+    u = {"id": "peg.rule." + name, "props": ["C12", "C19"], "tier": tier, "class": "bounded",
          "bound": bound or ("bytecode <= 24 words (symbolic, wf_peg), text length symbolic (any length, any window/offset); loops of peg_rule incl. the tail-call loop unwound %dx without unwinding assertion; capture stacks <= 4 entries" % unwind),
          "clause": clause, "src": ["peg.c"], "link": ["wrap.c"], "harness": ["peg_rule.c"], "entry": "h_peg_rule", "mode": "plain",
          "functions": ["peg_rule"], "defines": defines, "replace_calls": REPL, "replace_calls2": ["peg_rule__entry:peg_rule"],
